@@ -1,6 +1,7 @@
 package props
 
 import (
+	"fmt"
 	"go/token"
 
 	"golang.org/x/tools/go/ssa"
@@ -169,4 +170,91 @@ func checkSquashBase(p *core.Prog, r *core.Report, rule string) {
 		}
 	}
 	r.Check(okFile, rule, "getStore/snapshot-of-position", "the snapshot loaded is the full store whose exclusive end is the requested block", "NewCompleteFileInfo is not called with the requested block as end", p.Pos(gs.Pos()))
+}
+
+// checkSubrequestStores (C01.R6, C07.R1): a tier-2 job starts from stores standing exactly at its first block: the
+// stores of earlier stages are full stores loaded from the snapshot [module initial block, job start) — only when the
+// module starts before the job — and the stores of the stage being produced are partial stores starting at
+// max(job start, module initial block).
+func checkSubrequestStores(p *core.Prog, r *core.Report, rule string) {
+	fn := p.Func(pkgPipe, "Pipeline.setupSubrequestStores")
+	r.Touch(core.FuncName(fn))
+	isStart := func(v ssa.Value) bool { return hasFieldNamed(core.Trace(v, 0), "ResolvedStartBlockNum") }
+	// full stores
+	nci := core.FindInstrs(fn, core.IsCallTo(p.FuncObj(pkgStore, "NewCompleteFileInfo")))
+	okFile := len(nci) == 1
+	var fileV ssa.Value
+	if okFile {
+		args := nci[0].(ssa.CallInstruction).Common().Args
+		okFile = core.Trace(args[1], 0).HasCallNamed("InitialBlock") && isStart(args[2]) && !core.Trace(args[2], 0).HasCallNamed("InitialBlock")
+		fileV = nci[0].(ssa.Value)
+	}
+	r.Check(okFile, rule, "setupSubrequestStores/snapshot", "a store of an earlier stage is loaded from the full snapshot [module initial block, job start block)", "NewCompleteFileInfo arguments are not (name, store's initial block, resolved start block)", p.Pos(fn.Pos()))
+	loads := core.FindInstrs(fn, core.IsCallTo(p.FuncObj(pkgStore, "FullKV.Load")))
+	okLoad := len(loads) == 1
+	if okLoad {
+		args := loads[0].(ssa.CallInstruction).Common().Args
+		okLoad = args[len(args)-1] == fileV && core.ErrorTested(loads[0])
+		if okLoad {
+			nilE := errNilEdges(fn, loads[0])
+			q := core.PathQuery{Fn: fn, CutEdge: func(e core.Edge) bool { return containsEdge(nilE, e) }}
+			_, reach := q.CanReach(loads[0], func(x ssa.Instruction) bool {
+				rt, ok := x.(*ssa.Return)
+				return ok && core.ReturnsNilError(rt)
+			})
+			okLoad = len(nilE) > 0 && !reach
+		}
+	}
+	r.Check(okLoad, rule, "setupSubrequestStores/load", "that snapshot is loaded and a failed load fails the job set-up (a job never runs on an empty store in place of a missing snapshot)", "Load does not receive the snapshot descriptor, or its error does not end the set-up", p.Pos(fn.Pos()))
+	// the load is skipped only for a store that starts at or after the job's first block
+	okSkip := false
+	if len(loads) == 1 {
+		core.Instrs(fn, func(in ssa.Instruction) {
+			ifi, ok := in.(*ssa.If)
+			if !ok {
+				return
+			}
+			onT, onF, ok := core.CondRelation(ifi.Cond, func(v ssa.Value) bool { return core.Trace(v, 0).HasCallNamed("InitialBlock") && !isStart(v) }, isStart)
+			if !ok {
+				return
+			}
+			for idx, rel := range []int{onT, onF} {
+				if rel == core.OrdLT {
+					if _, only := core.OnlyViaEdge(fn, core.Edge{From: ifi.Block(), Idx: idx}, func(x ssa.Instruction) bool { return x == loads[0] }); only {
+						// and the other edge still sets the store
+						okSkip = true
+					}
+				}
+			}
+		})
+	}
+	r.Check(okSkip, rule, "setupSubrequestStores/load-iff-history", "the snapshot is loaded exactly when the store's module starts before the job's first block", "Load is not guarded by `initial block < job start`", p.Pos(fn.Pos()))
+	// partial stores of the produced stage
+	np := core.FindInstrs(fn, core.IsCallTo(p.FuncObj(pkgStore, "Config.NewPartialKV")))
+	okPart := len(np) == 1
+	if okPart {
+		a := np[0].(ssa.CallInstruction).Common().Args[1]
+		ph, isPhi := a.(*ssa.Phi)
+		okPart = isPhi
+		if isPhi {
+			sawStart, sawInit := false, false
+			for _, e := range ph.Edges {
+				if isStart(e) {
+					sawStart = true
+				}
+				if core.Trace(e, 0).HasCallNamed("ModuleInitialBlock") {
+					sawInit = true
+				}
+			}
+			okPart = sawStart && sawInit
+		}
+	}
+	r.Check(okPart, rule, "setupSubrequestStores/partial-start", "the partial store produced by the job starts at the later of the job's first block and the module's initial block", "NewPartialKV is not given max(resolved start, module initial block)", p.Pos(fn.Pos()))
+	// every store considered is registered
+	sets := core.FindInstrs(fn, func(in ssa.Instruction) bool {
+		c := core.CalleeOf(in)
+		return c != nil && c.Name() == "Set" && c.Pkg() != nil && c.Pkg().Path() == core.ModPath+"/"+pkgStore
+	})
+	r.Check(len(sets) >= 2, rule, "setupSubrequestStores/registered", "both kinds of store are registered in the job's store map", fmt.Sprintf("%d Set calls", len(sets)), p.Pos(fn.Pos()))
+	checkNoSilentTruncation(p, r, rule, []loopSite{{pkgPipe, "Pipeline.setupSubrequestStores", map[string]string{"1/nil-return": "stages above the highest stage being run are not set up (the loop is ascending, so everything needed was visited)"}}})
 }
